@@ -116,7 +116,7 @@ def oracle_gated(c, o, io_):
             continue
         if s in o["alive"]:
             continue
-        if ("fo" if s == "out" else "fe") in c["sched"]:
+        if ("fo" if s == "out" else "fe") in c["sched"] or ("bo" if s == "out" else "be") in c["sched"]:
             continue
         want = o["written"][idx].decode("utf-8", "replace")
         if o["cap"][idx] != want:
